@@ -5,6 +5,7 @@
 //! `amsim replay`  re-executes a replay file in a fresh process
 //! `amsim log`     prints one digest line per run (determinism proof)
 
+mod chunks;
 mod events;
 mod gen;
 mod model;
@@ -149,7 +150,7 @@ fn cmd_worker(args: &[String]) {
             let _ = o.flush();
         }
         let (cfg, evs) = gen::gen_run(run_seed, &profile);
-        let rep = execute(&prop, run_seed, &cfg, &evs);
+        let rep = execute_safe(&prop, run_seed, &cfg, &evs);
         evaluations += 1;
         steps += rep.steps;
         clock_span += rep.clock_span.max(0);
@@ -324,7 +325,12 @@ fn cmd_check(args: &[String]) {
                     *known_hits.entry(k.clone()).or_insert(0) += v.as_u64().unwrap_or(0);
                 }
                 for (k, v) in d["stats"].as_object().into_iter().flatten() {
-                    *stats.entry(k.clone()).or_insert(0) += v.as_u64().unwrap_or(0);
+                    let e = stats.entry(k.clone()).or_insert(0);
+                    if k.ends_with("_max") {
+                        *e = (*e).max(v.as_u64().unwrap_or(0));
+                    } else {
+                        *e += v.as_u64().unwrap_or(0);
+                    }
                 }
                 for u in d["unknown"].as_array().into_iter().flatten() {
                     unknown.push(u.clone());
@@ -493,7 +499,7 @@ fn cmd_replay(args: &[String]) {
         eprintln!("unknown property {}", rf.property);
         std::process::exit(2)
     });
-    let rep = execute(&prop, rf.run_seed, &rf.cfg, &rf.events);
+    let rep = execute_safe(&prop, rf.run_seed, &rf.cfg, &rf.events);
     match rep.verdict {
         Verdict::Violation(v) => {
             println!("replayed: oracle={} signature={} step={}\n{}", v.oracle, v.signature, v.step, v.detail);
@@ -530,7 +536,7 @@ fn cmd_log(args: &[String]) {
     for idx in from..to {
         let run_seed = prng::derive_seed(seed, salt_of(prop.id), idx);
         let (cfg, evs) = gen::gen_run(run_seed, &profile);
-        let rep = execute(&prop, run_seed, &cfg, &evs);
+        let rep = execute_safe(&prop, run_seed, &cfg, &evs);
         let v = match &rep.verdict {
             Verdict::Held => "held".to_string(),
             Verdict::Violation(v) => format!("violation:{}:{}:{}", v.oracle, v.signature, v.step),
@@ -562,7 +568,7 @@ fn cmd_explain(args: &[String]) {
     let idx: u64 = arg(args, "--run").and_then(|s| s.parse().ok()).unwrap_or(0);
     let run_seed = prng::derive_seed(seed, salt_of(prop.id), idx);
     let (cfg, evs) = gen::gen_run(run_seed, &(prop.profile)());
-    let rep = execute(&prop, run_seed, &cfg, &evs);
+    let rep = execute_safe(&prop, run_seed, &cfg, &evs);
     match rep.verdict {
         Verdict::Violation(v) => {
             let (min, mv, tried) = shrink(&prop, run_seed, &cfg, &evs, &v, 3000);
